@@ -7,6 +7,7 @@ import (
 	"os"
 	"os/exec"
 	"strings"
+	"sync"
 	"time"
 
 	. "verifharness/common"
@@ -136,41 +137,70 @@ func RunBatch(ins []Sx) []Result {
 		}
 		return res
 	}
-	const batch = 12
-	next := 0
-	troubled := 0
-	for next < len(ins) {
-		// several scenarios already ran into deadlines (stuck / inconclusive): do not let the rest
-		// of the run spend the whole budget waiting — shorter deadlines (they only ever turn an
-		// observation into "inconclusive", never into a finding)
-		fast := troubled >= 4
-		end := next + batch
-		if end > len(ins) {
-			end = len(ins)
+	// two children at a time (gated scenarios are latency-bound, not CPU-bound); the scenarios of
+	// a batch run in order inside their child
+	const batch = 8
+	type span struct{ from, to int }
+	var spans []span
+	for i := 0; i < len(ins); i += batch {
+		e := i + batch
+		if e > len(ins) {
+			e = len(ins)
 		}
-		got, crashNote, timedOut, bye := runChild(exe, ins[next:end], fast)
-		for _, r := range got {
-			if len(r.Notes) > 0 {
-				troubled++
-			}
-		}
-		for k, r := range got {
-			res[next+k] = r
-		}
-		next += len(got)
-		if next < end && bye && len(got) > 0 {
-			continue // the child left voluntarily after a stuck / inconclusive scenario
-		}
-		if next < end {
-			// the child stopped inside scenario `next`
-			if timedOut {
-				res[next] = Result{timeoutObservation(ins[next]), []string{"scenario process killed after the deadline"}}
-			} else {
-				res[next] = Result{crashObservation(ins[next]), []string{crashNote}}
-			}
-			next++
-		}
+		spans = append(spans, span{i, e})
 	}
+	var mu sync.Mutex
+	troubled := 0
+	work := make(chan span, len(spans))
+	for _, sp := range spans {
+		work <- sp
+	}
+	close(work)
+	var wg sync.WaitGroup
+	workers := 2
+	if os.Getenv("CONNSIM_WORKERS") == "1" {
+		workers = 1
+	}
+	for w := 0; w < workers; w++ {
+		wg.Add(1)
+		go func() {
+			defer wg.Done()
+			for sp := range work {
+				next := sp.from
+				for next < sp.to {
+					// several scenarios already ran into deadlines (stuck / inconclusive): do not let the
+					// rest of the run spend the whole budget waiting — shorter deadlines (they only ever
+					// turn an observation into "inconclusive", never into a finding)
+					mu.Lock()
+					fast := troubled >= 4
+					mu.Unlock()
+					got, crashNote, timedOut, bye := runChild(exe, ins[next:sp.to], fast)
+					for k, r := range got {
+						res[next+k] = r
+						if len(r.Notes) > 0 {
+							mu.Lock()
+							troubled++
+							mu.Unlock()
+						}
+					}
+					next += len(got)
+					if next < sp.to && bye && len(got) > 0 {
+						continue // the child left voluntarily after a stuck / inconclusive scenario
+					}
+					if next < sp.to {
+						// the child stopped inside scenario `next`
+						if timedOut {
+							res[next] = Result{timeoutObservation(ins[next]), []string{"scenario process killed after the deadline"}}
+						} else {
+							res[next] = Result{crashObservation(ins[next]), []string{crashNote}}
+						}
+						next++
+					}
+				}
+			}
+		}()
+	}
+	wg.Wait()
 	return res
 }
 
